@@ -123,11 +123,14 @@ class CumSumSoftPlusTransform(Transform):
         return torch.log(x.cumsum(-1).exp() + 1.0)
 
     def _inverse(self, y):
-        y_log = y.log()
-        return torch.cat((y_log[..., :1], y_log[..., 1:] - y_log[..., :-1]), -1)
+        # y_i = softplus(c_i) with c = x.cumsum(-1): c_i = log(exp(y_i) - 1)
+        c = torch.expm1(y).log()
+        return torch.cat((c[..., :1], c[..., 1:] - c[..., :-1]), -1)
 
     def log_abs_det_jacobian(self, x, y):
-        return torch.zeros(x.shape[:-1])
+        # The Jacobian is triangular with diagonal sigmoid(c_i), c = x.cumsum(-1),
+        # and log(sigmoid(c)) = -softplus(-c)
+        return -softplus(-x.cumsum(-1)).sum(-1)
 
 
 @register_class
